@@ -223,7 +223,7 @@ impl C07 {
             }
             rules.remove("bat_map_s");
         }
-        let exp = game::Response::new_from_valve_response(v);
+        let exp = crate::models::valve::project_game(&v);
         let info_hex = hex(&st.info_message());
         match run.outcome {
             Outcome::Returned(Ok(got)) => {
